@@ -85,7 +85,7 @@ PROPS["C15"] = {
 
 PROPS["C14"] = {
     "level": "other",
-    "rules": [p_charset.tab_l1, p_charset.str_branch, p_charset.tab_dispatch, p_macro.dom_macro, p_macro.dec_macro],
+    "rules": [p_charset.tab_l1, p_charset.str_branch, p_charset.tab_dispatch, p_macro.dom_macro, only(p_macro.dec_macro, lambda k: k != "eci-span:raw", "string-mode decoding")],
     "explanation": "Clause-level claim. Decided: both Latin-1 helper tables equal ISO-8859-1 on every code point / byte and are mutually "
                    "inverse (third sentence of the property, in full); encode_str takes the Latin-1 branch without ECI exactly when "
                    "utf8_to_latin1 succeeds and the UTF-8 branch with ECI 26 otherwise, and the ECI header is written iff requested "
@@ -195,7 +195,7 @@ PROPS["C19"] = {
 
 PROPS["C04"] = {
     "level": "other",
-    "rules": [p_codec.tab_dec, p_codec.dec_thresh, p_codec.dec_mode, p_codec.tab_cw, only(p_b256.tab_b256, B256_DEC, "decoder side"), p_b256.dec_b256],
+    "rules": [p_codec.tab_dec, p_codec.dec_thresh, p_codec.dec_mode, p_codec.tab_cw, only(p_b256.tab_b256, B256_DEC, "decoder side"), p_b256.dec_b256, p_macro.dec_macro],
     "explanation": "Clause-level claim. Decided: the decoder's per-codeword decision tables - ASCII (256 codewords x upper-shift state), "
                    "C40 and Text (4 shift sets x 256 values x upper-shift state, with the table constants decode_parts passes for each "
                    "mode), X12 values, EDIFACT six-bit values, the 16-bit pair unpacking - equal ISO/IEC 16022 Table 2 / Annex C / 5.2.7 / "
@@ -206,7 +206,7 @@ PROPS["C04"] = {
                    "the standard's 255-state algorithm (every run length 1..260 and long runs with the prescribed length field, field 0, all "
                    "1536 two-codeword fields, exact / surplus / short streams): the plain bytes, the reader position, the next mode and "
                    "UnexpectedEnd exactly for a stream that ends early; the EDIFACT value table is read off decode_edifact folded as a whole "
-                   "(every six-bit value at each of the four positions of a triple, unlatch at each position). NOT decided: that the state "
+                   "(every six-bit value at each of the four positions of a triple, unlatch at each position); DEC-MACRO - the Macro 05/06 header is recognised only as the first codeword, expands to the standard's prefix and trailer, and opens character-set spans only in string mode (in raw mode a span makes decode_data refuse the stream). NOT decided: that the state "
                    "machines compose correctly for every legal script (pad checking and mode sequences are loops over run-time positions); "
                    "the Base256 streams are a grid, not all streams. When the statement shapes of the termination forms are not recognised, "
                    "DEC-THRESH reads them off the three packed-mode decoders folded on every stream shape of up to five codewords "
